@@ -1,6 +1,6 @@
 (* Entry points used by the correspondence check (harness/c18.py). *)
 From Coq Require Import NArith List Bool.
-From PV Require Import Gen.FileSelConst Cli.Glob Cli.FileSel.
+From PV Require Import Gen.FileSelConst Cli.Glob Cli.GlobX Cli.FileSel.
 Import ListNotations.
 Open Scope N_scope.
 
@@ -27,5 +27,17 @@ Definition run_case (w : node) (cwd : list name) (ts : list spath) (recursive : 
 Definition default_patterns := (filesel_default_include, filesel_default_exclude, filesel_default_recursive).
 
 Definition run_glob (p n : str) : bool * bool := (glob_str p n, pat_ok p && name_ok n).
+
+(* the full pattern language (Cli/GlobX.v): match, inside the compared domain, class against separator *)
+Definition run_xglob (p n : str) : bool * bool * bool := (xglob_str p n, xpat_ok p && name_ok n, eats_str p n).
+(* one row of the differential test: results of one pattern on chunks of names, bit-packed *)
+Definition xrow (p : str) (chunks : list (list str)) : list N * bool := (map (xglob_row p) chunks, xpat_ok p).
+Definition xrow_e (p : str) (chunks : list (list str)) : list N * list N * bool :=
+  (map (xglob_row p) chunks, map (eats_row p) chunks, xpat_ok p).
+(* can some pattern of the list bring a class against a separator of this path (known finding C18-G4)? *)
+Definition run_eats (pats : list str) (rels : list (list name)) : list bool :=
+  map (fun rel => existsb (fun p => eats_path p rel) pats) rels.
+Definition run_include_e (rel : list name) (inc exc : list str) : bool * bool :=
+  (should_include_file rel inc exc, existsb (fun p => eats_path p rel) (inc ++ exc)).
 Definition run_skipdirs (ns : list name) : list bool := map should_skip_directory ns.
 Definition run_include (rel : list name) (inc exc : list str) : bool := should_include_file rel inc exc.
